@@ -4,7 +4,7 @@ CONSTANTS
   VarTexts <- GRVarTexts
   GlobTexts <- GRGlobTexts
   Universe <- GRTable
-  Reqs <- GRReqs
+  Reqs <- GRNoReqs
   TokRank <- GRNoRank
   MaxRoutes = 0
   Wide = FALSE
